@@ -1,5 +1,6 @@
 """Glue used by the per-property checks: explore -> build VCs -> discharge ->
 replay counterexamples -> fill the case result."""
+import bisect
 import fractions
 import time
 
@@ -34,6 +35,65 @@ def consts_of(terms):
   return out
 
 
+class ModelFunction(object):
+  """Concrete python function read off a z3 model's interpretation of a unary
+  uninterpreted function: the model's argument/value table with a tolerance on
+  the argument (the real code reaches the argument through float rounding),
+  the model's else-value elsewhere."""
+
+  def __init__(self, name, table, default):
+    self.name = name
+    self.keys = sorted(table)
+    self.table = table
+    self.default = default
+
+  def __call__(self, x):
+    x = float(x)
+    i = bisect.bisect_left(self.keys, x)
+    best = None
+    for j in (i - 1, i):
+      if 0 <= j < len(self.keys):
+        k = self.keys[j]
+        if abs(k - x) <= 1e-9 * max(1.0, abs(k)) and (best is None or abs(k - x) < abs(best - x)):
+          best = k
+    if best is None:
+      return self.default
+    return self.table[best]
+
+
+def _fr(v):
+  if z3.is_rational_value(v):
+    return fractions.Fraction(v.numerator_as_long(), v.denominator_as_long())
+  if z3.is_algebraic_value(v):
+    a = v.approx(20)
+    return fractions.Fraction(a.numerator_as_long(), a.denominator_as_long())
+  return None
+
+
+def model_functions(m):
+  """{name: ModelFunction} for every unary Real->Real function in the model."""
+  out = {}
+  for d in m.decls():
+    if d.arity() != 1:
+      continue
+    fi = m[d]
+    if not isinstance(fi, z3.FuncInterp):
+      continue
+    table = {}
+    ok = True
+    for i in range(fi.num_entries()):
+      e = fi.entry(i)
+      a, v = _fr(e.arg_value(0)), _fr(e.value())
+      if a is None or v is None:
+        ok = False
+        break
+      table[float(a)] = float(v)
+    dv = _fr(fi.else_value()) if fi.else_value() is not None else None
+    if ok:
+      out[d.name()] = ModelFunction(d.name(), table, float(dv) if dv is not None else 0.0)
+  return out
+
+
 def witness_from_model(m, terms):
   w = {}
   for name, c in consts_of(terms).items():
@@ -41,42 +101,75 @@ def witness_from_model(m, terms):
     if v is not None:
       w[name] = float(v) if isinstance(v, fractions.Fraction) else v
       w[name + "#exact"] = str(v)
+  try:
+    w["#functions"] = model_functions(m)
+  except Exception:
+    w["#functions"] = {}
   return w
+
+
+def _jsonable(w):
+  out = {}
+  for k, v in w.items():
+    if k == "#functions":
+      out[k] = {n: dict(table={repr(a): b for a, b in list(f.table.items())[:40]}, default=f.default) for n, f in v.items()}
+    else:
+      out[k] = v
+  return out
 
 
 def explore_and_check(res, fn, build_vcs, replay=None, negative=None, explorer_kw=None,
                       use_exp_axioms=False, vc_timeout_ms=20000, catch=(Exception,),
-                      max_samples=2, key_prefix="", batch=True):
+                      max_samples=2, key_prefix="", batch=True, max_seconds=240, stop_after_violations=3):
   """fn(): the symbolic run (returns anything).  build_vcs(path) -> list[VC]
-  (may raise Structural).  replay(vc, witness, path) -> (confirmed, desc, record).
-  negative(path) -> list[VC] that must NOT all hold (vacuity guard)."""
-  ex = core.Explorer(**(explorer_kw or {}))
-  paths = ex.explore(fn, catch=catch)
-  D = vcmod.Discharger(timeout_ms=vc_timeout_ms)
-  res["paths"] += ex.stats["paths"]
-  res["decisions"] += ex.stats["decisions"]
-  res["queries"] += ex.stats["feasibility_queries"]
-  res["solver_s"] += ex.stats["solver_s"]
-  if ex.stats["truncated"]:
-    res["inconclusive"].append("path budget exhausted after %d paths" % ex.stats["paths"])
-  if ex.stats["unknown_feasibility"]:
-    res["notes"].append("%d feasibility queries returned unknown (both branches explored)" % ex.stats["unknown_feasibility"])
+  (may raise Structural).  replay(vc, witness, path, structural) ->
+  (confirmed, desc, record).  negative(path) -> list[VC] that must NOT all hold
+  (vacuity guard).  Paths are checked as they are produced; exploration stops
+  early once `stop_after_violations` distinct confirmed violations are known."""
+  kw = dict(explorer_kw or {})
+  kw.setdefault("max_seconds", max_seconds)
+  ex = core.Explorer(**kw)
+  D = vcmod.Discharger(timeout_ms=vc_timeout_ms, deadline=(ex.deadline + 30) if ex.deadline else None)
   neg_seen = False
   seen_keys = {}
-  for p in paths:
+  npaths = 0
+  first_violation_at = None
+  for p in ex.iter_paths(fn, catch=catch):
+    npaths += 1
+    if res["violations"] and first_violation_at is None:
+      first_violation_at = npaths
+    if first_violation_at is not None and npaths > first_violation_at + 5:
+      res["notes"].append("exploration stopped early: confirmed violation found on path %d" % (first_violation_at - 1))
+      break
+    for nn in p.notes:
+      if nn not in res["notes"] and len(res["notes"]) < 20:
+        res["notes"].append(nn)
     if p.aborted:
       res["outside"].append("path ended: %s" % p.aborted)
+      res["aborted_paths"] = res.get("aborted_paths", 0) + 1
       continue
     try:
       vcs = build_vcs(p)
     except Structural as s:
+      vkey = key_prefix + s.key
+      if vkey in seen_keys:
+        continue
       confirmed, desc, rec = (True, s.desc, {})
       if replay is not None:
-        confirmed, desc, rec = replay(None, {}, p, s)
-      (res["violations"] if confirmed else res["spurious"]).append(
-        dict(key=key_prefix + s.key, desc=desc, record=rec))
-      if not confirmed:
-        res["inconclusive"].append("structural mismatch not reproduced: " + s.desc)
+        try:
+          confirmed, desc, rec = replay(None, _struct_witness(p, D), p, s)
+          res["replays"] += 1
+        except Exception as e:
+          confirmed, desc, rec = (False, "replay raised %s: %s" % (type(e).__name__, e), {})
+      entry = dict(key=vkey, desc="%s | %s" % (s.desc, desc), record=rec)
+      if confirmed:
+        res["violations"].append(entry)
+        seen_keys[vkey] = entry
+      else:
+        res["spurious"].append(entry)
+        res["inconclusive"].append("structural mismatch not reproduced: %s (%s)" % (s.desc, desc))
+      if len(res["violations"]) >= stop_after_violations:
+        break
       continue
     if vcs is None:
       continue
@@ -94,20 +187,19 @@ def explore_and_check(res, fn, build_vcs, replay=None, negative=None, explorer_k
       if status == "unknown":
         res["inconclusive"].append("VC %s: solver returned unknown" % v.name)
       elif status == "sat":
-        w = witness_from_model(m, [v.formula] + list(p.pc))
-        confirmed, desc, rec = (False, "no replay available", {})
         vkey = key_prefix + (v.info or {}).get("key", v.name)
         if vkey in seen_keys:
-          # same kind of violation already replayed and recorded for this case
           seen_keys[vkey]["count"] = seen_keys[vkey].get("count", 1) + 1
           continue
+        w = witness_from_model(m, [v.formula] + list(p.pc))
+        confirmed, desc, rec = (False, "no replay available", {})
         if replay is not None:
           try:
             confirmed, desc, rec = replay(v, w, p, None)
             res["replays"] += 1
           except Exception as e:  # replay itself failed
             confirmed, desc, rec = (False, "replay raised %s: %s" % (type(e).__name__, e), {})
-        entry = dict(key=vkey, vc=v.name, desc=desc, witness=w,
+        entry = dict(key=vkey, vc=v.name, desc=desc, witness=_jsonable(w),
                      record=rec, formula=vcmod.short(v.formula, 600))
         if confirmed:
           res["violations"].append(entry)
@@ -123,6 +215,50 @@ def explore_and_check(res, fn, build_vcs, replay=None, negative=None, explorer_k
         if any(st == "sat" for (_v, st, _m) in nout):
           res["negatives_ok"] += 1
         neg_seen = True
-  res["queries"] += D.stats["queries"] + D.stats["pc_checks"]
-  res["solver_s"] += D.stats["solver_s"]
-  return paths
+    if len(res["violations"]) >= stop_after_violations:
+      res["notes"].append("exploration stopped early after %d confirmed violations" % len(res["violations"]))
+      break
+  res["paths"] += ex.stats["paths"]
+  res["decisions"] += ex.stats["decisions"]
+  res["queries"] += ex.stats["feasibility_queries"] + D.stats["queries"] + D.stats["pc_checks"]
+  res["solver_s"] += ex.stats["solver_s"] + D.stats["solver_s"]
+  if ex.stats["truncated"] and not res["violations"]:
+    res["inconclusive"].append("exploration budget exhausted after %d paths" % ex.stats["paths"])
+  if ex.stats["unknown_feasibility"]:
+    res["notes"].append("%d feasibility queries returned unknown (both branches explored)" % ex.stats["unknown_feasibility"])
+  if npaths and res.get("aborted_paths", 0) == npaths:
+    res["inconclusive"].append("every path left the stated bound; nothing was checked")
+  return ex
+
+
+def _struct_witness(p, D):
+  """A model of the path condition, for replaying structural mismatches."""
+  s = z3.Solver()
+  s.set("timeout", 5000)
+  for c in p.pc:
+    s.add(c)
+  if s.check() == z3.sat:
+    return witness_from_model(s.model(), list(p.pc))
+  return {}
+
+
+def T(path, x):
+  """z3 term of a number read back from output: a tag maps to its term, any
+  other number is taken as the exact printed constant."""
+  t = path.term_of_number(x)
+  return t if t is not None else core.rv(x)
+
+
+class Sink(object):
+  """File-like object recording every write (used where 'all or nothing' and
+  the number of write calls matter)."""
+
+  def __init__(self):
+    self.writes = []
+
+  def write(self, s):
+    self.writes.append(s)
+    return len(s)
+
+  def getvalue(self):
+    return "".join(self.writes)
